@@ -580,7 +580,7 @@ func (k *secKsGen) removeAndMaybeReimport() {
 			nw := fmt.Sprintf("W%d", k.nW)
 			p := freshPass(k.r)
 			if k.r.Intn(4) == 0 {
-				p = "x1" // ImportWalletWithMnemonic does not validate the passphrase
+				p = fmt.Sprintf("x%d", k.nW) // ImportWalletWithMnemonic does not validate the passphrase (distinct per wallet: the same passphrase would be the same identity)
 			}
 			k.op("importmn-newpass", "kimportmn %s %s %s %d %d", nw, hexp(p), w, ext, in)
 			k.names = append(k.names, nw)
